@@ -141,3 +141,25 @@ Definition msg_case (c : list str * list str * str * str * str * list (str * str
 
 (* the Date field of parse_email_message: parsedate_to_datetime(...).isoformat() (recorded; None = it raised) *)
 Definition date_case (c : option str * str) : bool := str_eqb (date_field (fst c)) (snd c).
+
+(* _read_eml_format over an arbitrary (stubbed) mailparser record: per attachment (filename, content type, binary, payload)
+   -> (filename, mime type, flag, data).  b64decode / utf-8 encoding are recorded tables. *)
+Definition tbl_of (t : list (str * str)) (x : str) : str := match assoc x t with Some y => y | None => [] end.
+Fixpoint quads_eqb (a b : list (str * str * bool * str)) : bool :=
+  match a, b with
+  | [], [] => true
+  | (x1, x2, x3, x4) :: a', (y1, y2, y3, y4) :: b' =>
+      str_eqb x1 y1 && str_eqb x2 y2 && Bool.eqb x3 y3 && str_eqb x4 y4 && quads_eqb a' b'
+  | _, _ => false
+  end.
+Definition eml_record_case (T : C07.Model.tables)
+    (c : list (str * str) * list (str * str) * list (str * str * bool * mp_payload) * list (str * str * bool * str)) : bool :=
+  let '(b64, u8, recs, expected) := c in
+  quads_eqb (map (fun r => let '(fn, ct, bin, p) := r in
+                           let '(n, m, fl) := eml_attachment T (mkMpAtt fn ct) in
+                           (n, m, fl, eml_attachment_data (tbl_of b64) (tbl_of u8) bin p)) recs) expected.
+
+(* the single-part body of get_body_content: payload bytes, declared charset, recorded codec results *)
+Definition payload_case (c : dec_table * u8_table * str * option str * str) : bool :=
+  let '(dc, u8, payload, cs, expected) := c in
+  str_eqb (payload_text (dec_of dc) (u8_of u8) payload cs) expected.
